@@ -151,8 +151,11 @@ inductive Err where
   | argValue       -- ValueError from `_check_formatting` / `draw` argument checks
 deriving DecidableEq, Repr
 
+/-- the exception class; the format-specifier error is told apart from the other `ValueError`s by its
+    documented message ("Invalid format specifier …", the one the repo's own tests match on) -/
 def Err.className : Err → String
   | .styleError => "StyleError"
+  | .invalidSpec => "ValueError:spec"
   | _ => "ValueError"
 
 inductive Alpha where
